@@ -22,6 +22,8 @@ def charge_map(name):
         return lambda q: (np.asarray(q, dtype=np.int64) << 16) - np.asarray(q, dtype=np.int64)
     if name == 'big':
         return lambda q: np.asarray(q, dtype=np.int64) * 1000003 - 7
+    if name == 'huge':  # neighbouring integers above 2**53: not representable as float64
+        return lambda q: np.asarray(q, dtype=np.int64) + (1 << 53)
     raise ValueError(name)
 
 
